@@ -1485,6 +1485,18 @@ class Extractor:
         if kind in ('enum', 'struct'):
             _inner_attr_edits(src, segs, kwi, end, self.counts)
         spec = spec or {}
+        # per-item extension of rule 'drop-attr': inner attributes named in spec['drop_inner_attrs'] (e.g. `#[default]`, the marker of
+        # a `derive(Default)` that the item drops) are dropped from the variants / fields of this enum / struct
+        if kind in ('enum', 'struct') and spec.get('drop_inner_attrs'):
+            k = kwi
+            while k < end:
+                if toks[k].text == '#' and toks[k + 1].text == '[' and toks[k + 2].text in spec['drop_inner_attrs']:
+                    e = match_close(toks, k + 1)
+                    segs.rewrite(toks[k].start, toks[e].end, '', 'drop-attr')
+                    self.counts['drop-attr'] = self.counts.get('drop-attr', 0) + 1
+                    k = e + 1
+                else:
+                    k += 1
         # Rule 'raw-ident-rename': a raw identifier such as `r#type` is renamed consistently in every extracted item of the
         # unit (Verus 0.2026.09.13 aborts in its SMT encoding on a field or parameter called `r#type`); a pure renaming
         for old_id, new_id in (spec.get('rename_idents') or {}).items():
